@@ -62,10 +62,12 @@ class C18(Prop):
                 for _ in range(2 if tier == "quick" else 6)]
         pool = ["<title>x</title>", "<title>x</title> ", " <title>x</title>", "<title>y</title>", "plain", "plain ", "pl" + "ain",
                 "<meta a='1' b='2'>", "<meta b='2' a='1'>", "", " ", "<b>é</b>", "<b>é</b>"]
-        for _ in range(300 if tier == "quick" else 3000):
+        # payloads that differ only where an encoder might substitute (lone surrogates are refused today)
+        pool += ["caf\udce9", "caf\udce8", "caf?", "caf\ufffd", "x\ud800", "x?"]
+        for _ in range(450 if tier == "quick" else 4500):
             a = rnd.choice(pool) if rnd.random() < 0.7 else gamma.rand_text(rnd, 12)
             b = rnd.choice(pool + [a, a]) if rnd.random() < 0.8 else gamma.rand_text(rnd, 12)
-            gens.append({"kind": "pair", "a": a, "b": b, "how": rnd.choice(["html", "str", "tag", "withdep", "withdep_json", "mode_mix"])})
+            gens.append({"kind": "pair", "a": a, "b": b, "how": rnd.choice(["html", "str", "tag", "title", "title", "withdep", "withdep_json", "mode_mix"])})
         return gens
 
     # constructions borrowed from the other properties' drivers: each is executed twice in THIS process, the second
@@ -158,12 +160,18 @@ class C18(Prop):
                     return H.head_content(H.tags.title(s), dep)
                 finally:
                     H.html_dependency_render_mode = old
+            if how == "title":
+                return H.head_content(H.tags.title(s))         # a payload that is exactly one well-known element
             if how == "html":
                 return H.head_content(H.HTML(s))
             if how == "str":
                 return H.head_content(s)
             return H.head_content(H.tags.title(s), H.tags.meta(name="n", content=s))
-        da, db = mk(g["a"], 0), mk(g["b"], 1)
+        try:
+            da, db = mk(g["a"], 0), mk(g["b"], 1)
+        except UnicodeEncodeError:
+            # a payload the library refuses (a lone surrogate cannot be hashed): nothing was named, nothing can be merged
+            return {"k": "pair", "nameA": "refused-a", "nameB": "refused-b", "sameContent": False, "countInDoc": 2, "countInText": 2, "gen": g}
         ra, rb = da.head.get_html_string(), db.head.get_html_string()
         doc = H.HTMLDocument(H.tags.div(da, "x", H.tags.span(db))).render()
         # the same through the json path: three fragments rendered separately (A, something else, B), concatenated and
